@@ -65,6 +65,7 @@ type pktEvmPacket struct {
 	outward bool // host -> evm (acknowledgement flow)
 	ackAt   uint64
 	acked   bool
+	ackStored bool // outward packets: the EVM chain has written the acknowledgement hash under the ack slot
 }
 
 type pktEvm struct {
